@@ -72,22 +72,22 @@ Definition table : list review := [
     "send path only (encoding of locally produced values; C14/C13 cover the writers), never run on peer bytes; Model/WriteBuf.v (C14)";
   mk_review "h3/src/stream.rs" "WriteBuf::encode_frame_header" K_arith 1 NotPeerReachable
     "send path only (encoding of locally produced values; C14/C13 cover the writers), never run on peer bytes; Model/WriteBuf.v (C14)";
-  mk_review "h3/src/stream.rs" "Buf for WriteBuf::remaining" K_arith 1 NotPeerReachable
-    "send path only (encoding of locally produced values; C14/C13 cover the writers), never run on peer bytes; Model/WriteBuf.v (C14)";
-  mk_review "h3/src/stream.rs" "Buf for WriteBuf::remaining" K_arith 2 NotPeerReachable
-    "send path only (encoding of locally produced values; C14/C13 cover the writers), never run on peer bytes; Model/WriteBuf.v (C14)";
-  mk_review "h3/src/stream.rs" "Buf for WriteBuf::chunk" K_arith 1 NotPeerReachable
-    "send path only (encoding of locally produced values; C14/C13 cover the writers), never run on peer bytes; Model/WriteBuf.v (C14)";
-  mk_review "h3/src/stream.rs" "Buf for WriteBuf::chunk" K_index 1 NotPeerReachable
-    "send path only (encoding of locally produced values; C14/C13 cover the writers), never run on peer bytes; Model/WriteBuf.v (C14)";
-  mk_review "h3/src/stream.rs" "Buf for WriteBuf::advance" K_arith 1 NotPeerReachable
-    "send path only (encoding of locally produced values; C14/C13 cover the writers), never run on peer bytes; Model/WriteBuf.v (C14)";
-  mk_review "h3/src/stream.rs" "Buf for WriteBuf::advance" K_arith 2 NotPeerReachable
-    "send path only (encoding of locally produced values; C14/C13 cover the writers), never run on peer bytes; Model/WriteBuf.v (C14)";
-  mk_review "h3/src/stream.rs" "Buf for WriteBuf::advance" K_arith 3 NotPeerReachable
-    "send path only (encoding of locally produced values; C14/C13 cover the writers), never run on peer bytes; Model/WriteBuf.v (C14)";
-  mk_review "h3/src/stream.rs" "Buf for WriteBuf::advance" K_buf_advance 1 NotPeerReachable
-    "send path only (encoding of locally produced values; C14/C13 cover the writers), never run on peer bytes; Model/WriteBuf.v (C14)";
+  mk_review "h3/src/stream.rs" "Buf for WriteBuf::remaining" K_arith 1 Guarded
+    "send path, but driven by the transport: advance(cnt) is called with what the flow-control credit of the peer lets the transport take. remaining_header = len - pos >= 0 by the invariant pos <= len; advanced = min(cnt, remaining_header) so pos += advanced keeps pos <= len and cnt -= advanced cannot underflow; the payload advance gets cnt <= payload.remaining() from the Buf contract of the caller; chunk() slices buf[pos..len] with pos <= len <= 64. Model/WriteBuf.v (C14) wb_advance; exercised by the back-pressure family (budgets 0,1,2,3,7,63)";
+  mk_review "h3/src/stream.rs" "Buf for WriteBuf::remaining" K_arith 2 Guarded
+    "send path, but driven by the transport: advance(cnt) is called with what the flow-control credit of the peer lets the transport take. remaining_header = len - pos >= 0 by the invariant pos <= len; advanced = min(cnt, remaining_header) so pos += advanced keeps pos <= len and cnt -= advanced cannot underflow; the payload advance gets cnt <= payload.remaining() from the Buf contract of the caller; chunk() slices buf[pos..len] with pos <= len <= 64. Model/WriteBuf.v (C14) wb_advance; exercised by the back-pressure family (budgets 0,1,2,3,7,63)";
+  mk_review "h3/src/stream.rs" "Buf for WriteBuf::chunk" K_arith 1 Guarded
+    "send path, but driven by the transport: advance(cnt) is called with what the flow-control credit of the peer lets the transport take. remaining_header = len - pos >= 0 by the invariant pos <= len; advanced = min(cnt, remaining_header) so pos += advanced keeps pos <= len and cnt -= advanced cannot underflow; the payload advance gets cnt <= payload.remaining() from the Buf contract of the caller; chunk() slices buf[pos..len] with pos <= len <= 64. Model/WriteBuf.v (C14) wb_advance; exercised by the back-pressure family (budgets 0,1,2,3,7,63)";
+  mk_review "h3/src/stream.rs" "Buf for WriteBuf::chunk" K_index 1 Guarded
+    "send path, but driven by the transport: advance(cnt) is called with what the flow-control credit of the peer lets the transport take. remaining_header = len - pos >= 0 by the invariant pos <= len; advanced = min(cnt, remaining_header) so pos += advanced keeps pos <= len and cnt -= advanced cannot underflow; the payload advance gets cnt <= payload.remaining() from the Buf contract of the caller; chunk() slices buf[pos..len] with pos <= len <= 64. Model/WriteBuf.v (C14) wb_advance; exercised by the back-pressure family (budgets 0,1,2,3,7,63)";
+  mk_review "h3/src/stream.rs" "Buf for WriteBuf::advance" K_arith 1 Guarded
+    "send path, but driven by the transport: advance(cnt) is called with what the flow-control credit of the peer lets the transport take. remaining_header = len - pos >= 0 by the invariant pos <= len; advanced = min(cnt, remaining_header) so pos += advanced keeps pos <= len and cnt -= advanced cannot underflow; the payload advance gets cnt <= payload.remaining() from the Buf contract of the caller; chunk() slices buf[pos..len] with pos <= len <= 64. Model/WriteBuf.v (C14) wb_advance; exercised by the back-pressure family (budgets 0,1,2,3,7,63)";
+  mk_review "h3/src/stream.rs" "Buf for WriteBuf::advance" K_arith 2 Guarded
+    "send path, but driven by the transport: advance(cnt) is called with what the flow-control credit of the peer lets the transport take. remaining_header = len - pos >= 0 by the invariant pos <= len; advanced = min(cnt, remaining_header) so pos += advanced keeps pos <= len and cnt -= advanced cannot underflow; the payload advance gets cnt <= payload.remaining() from the Buf contract of the caller; chunk() slices buf[pos..len] with pos <= len <= 64. Model/WriteBuf.v (C14) wb_advance; exercised by the back-pressure family (budgets 0,1,2,3,7,63)";
+  mk_review "h3/src/stream.rs" "Buf for WriteBuf::advance" K_arith 3 Guarded
+    "send path, but driven by the transport: advance(cnt) is called with what the flow-control credit of the peer lets the transport take. remaining_header = len - pos >= 0 by the invariant pos <= len; advanced = min(cnt, remaining_header) so pos += advanced keeps pos <= len and cnt -= advanced cannot underflow; the payload advance gets cnt <= payload.remaining() from the Buf contract of the caller; chunk() slices buf[pos..len] with pos <= len <= 64. Model/WriteBuf.v (C14) wb_advance; exercised by the back-pressure family (budgets 0,1,2,3,7,63)";
+  mk_review "h3/src/stream.rs" "Buf for WriteBuf::advance" K_buf_advance 1 Guarded
+    "send path, but driven by the transport: advance(cnt) is called with what the flow-control credit of the peer lets the transport take. remaining_header = len - pos >= 0 by the invariant pos <= len; advanced = min(cnt, remaining_header) so pos += advanced keeps pos <= len and cnt -= advanced cannot underflow; the payload advance gets cnt <= payload.remaining() from the Buf contract of the caller; chunk() slices buf[pos..len] with pos <= len <= 64. Model/WriteBuf.v (C14) wb_advance; exercised by the back-pressure family (budgets 0,1,2,3,7,63)";
   mk_review "h3/src/stream.rs" "AcceptRecvStream::into_stream" K_expect 1 Modelled
     "into_stream is only called after poll_type returned Ready(Ok(())), which has set ty, and id for WEBTRANSPORT_UNI/PUSH (connection.rs poll_accept_recv); Model/AcceptRecv.v into_stream_kind Panic 61/62, unreachable by poll_type_char (C04): after Ready(Ok) ty is set and the id is set exactly for PUSH / WEBTRANSPORT_UNI";
   mk_review "h3/src/stream.rs" "AcceptRecvStream::into_stream" K_expect 2 Modelled
@@ -641,8 +641,172 @@ Definition table : list review := [
   mk_review "h3/src/qpack/field.rs" "HeaderField::mem_size" K_arith 2 Guarded
     "lengths of two in-memory byte vectors plus 32";
   mk_review "h3/src/webtransport/session_id.rs" "Encode for SessionId::encode" K_unwrap 1 NotPeerReachable
-    "send path only (encoding of locally produced values; C14/C13 cover the writers), never run on peer bytes"
+    "send path only (encoding of locally produced values; C14/C13 cover the writers), never run on peer bytes";
+  mk_review "h3/src/error/codes.rs" "macro_rules codes" K_arith 1 Guarded
+    "lexical false positive: the `+` is the repetition operator of the codes! macro_rules pattern / expansion, not arithmetic";
+  mk_review "h3/src/error/codes.rs" "macro_rules codes" K_arith 2 Guarded
+    "lexical false positive: the `+` is the repetition operator of the codes! macro_rules pattern / expansion, not arithmetic";
+  mk_review "h3/src/error/codes.rs" "Debug for Code::fmt" K_arith 1 Guarded
+    "lexical false positive: the `+` is the repetition operator of the codes! macro_rules pattern / expansion, not arithmetic";
+  mk_review "h3/src/error/codes.rs" "Display for Code::fmt" K_arith 1 Guarded
+    "lexical false positive: the `+` is the repetition operator of the codes! macro_rules pattern / expansion, not arithmetic";
+  mk_review "h3/src/config.rs" "TryFrom for Settings::try_from" K_headermap 1 NotPeerReachable
+    "Settings built from the LOCAL configuration (send path); `.insert(` is Settings::insert (fixed array, returns Err), the casts are bool/u64 widenings; C13";
+  mk_review "h3/src/config.rs" "TryFrom for Settings::try_from" K_headermap 2 NotPeerReachable
+    "Settings built from the LOCAL configuration (send path); `.insert(` is Settings::insert (fixed array, returns Err), the casts are bool/u64 widenings; C13";
+  mk_review "h3/src/config.rs" "TryFrom for Settings::try_from" K_headermap 3 NotPeerReachable
+    "Settings built from the LOCAL configuration (send path); `.insert(` is Settings::insert (fixed array, returns Err), the casts are bool/u64 widenings; C13";
+  mk_review "h3/src/config.rs" "TryFrom for Settings::try_from" K_cast 1 NotPeerReachable
+    "Settings built from the LOCAL configuration (send path); `.insert(` is Settings::insert (fixed array, returns Err), the casts are bool/u64 widenings; C13";
+  mk_review "h3/src/config.rs" "TryFrom for Settings::try_from" K_headermap 4 NotPeerReachable
+    "Settings built from the LOCAL configuration (send path); `.insert(` is Settings::insert (fixed array, returns Err), the casts are bool/u64 widenings; C13";
+  mk_review "h3/src/config.rs" "TryFrom for Settings::try_from" K_cast 2 NotPeerReachable
+    "Settings built from the LOCAL configuration (send path); `.insert(` is Settings::insert (fixed array, returns Err), the casts are bool/u64 widenings; C13";
+  mk_review "h3/src/config.rs" "TryFrom for Settings::try_from" K_headermap 5 NotPeerReachable
+    "Settings built from the LOCAL configuration (send path); `.insert(` is Settings::insert (fixed array, returns Err), the casts are bool/u64 widenings; C13";
+  mk_review "h3/src/config.rs" "TryFrom for Settings::try_from" K_cast 3 NotPeerReachable
+    "Settings built from the LOCAL configuration (send path); `.insert(` is Settings::insert (fixed array, returns Err), the casts are bool/u64 widenings; C13";
+  mk_review "h3/src/config.rs" "TryFrom for Settings::try_from" K_headermap 6 NotPeerReachable
+    "Settings built from the LOCAL configuration (send path); `.insert(` is Settings::insert (fixed array, returns Err), the casts are bool/u64 widenings; C13";
+  mk_review "h3-webtransport/src/server.rs" "WebTransportSession::accept" K_unwrap 1 Guarded
+    "Response::builder() with constant header / status values cannot fail";
+  mk_review "h3-webtransport/src/server.rs" "WebTransportSession::accept" K_unwrap 2 Guarded
+    "Response::builder() with constant header / status values cannot fail";
+  mk_review "h3-webtransport/src/server.rs" "WebTransportSession::datagram_reader" K_unwrap 1 Guarded
+    "Mutex::lock().unwrap() fails only when the mutex is poisoned, i.e. after another h3 call already panicked while holding it; no peer input poisons it by itself";
+  mk_review "h3-webtransport/src/server.rs" "WebTransportSession::datagram_sender" K_unwrap 1 Guarded
+    "Mutex::lock().unwrap() fails only when the mutex is poisoned, i.e. after another h3 call already panicked while holding it; no peer input poisons it by itself";
+  mk_review "h3-webtransport/src/server.rs" "WebTransportSession::accept_bi" K_unwrap 1 Guarded
+    "Mutex::lock().unwrap() fails only when the mutex is poisoned, i.e. after another h3 call already panicked while holding it; no peer input poisons it by itself";
+  mk_review "h3-webtransport/src/server.rs" "WebTransportSession::accept_bi" K_unwrap 2 Guarded
+    "Mutex::lock().unwrap() fails only when the mutex is poisoned, i.e. after another h3 call already panicked while holding it; no peer input poisons it by itself";
+  mk_review "h3-webtransport/src/server.rs" "Future for OpenBi::poll" K_unwrap 1 Guarded
+    "Mutex::lock().unwrap() fails only if another holder panicked before (poisoning); p.stream.take().unwrap() is inside the `Some((stream, buf))` arm of the match on the same Option";
+  mk_review "h3-webtransport/src/server.rs" "Future for OpenBi::poll" K_unwrap 2 Guarded
+    "Mutex::lock().unwrap() fails only if another holder panicked before (poisoning); p.stream.take().unwrap() is inside the `Some((stream, buf))` arm of the match on the same Option";
+  mk_review "h3-webtransport/src/server.rs" "Future for OpenUni::poll" K_unwrap 1 Guarded
+    "Mutex::lock().unwrap() fails only if another holder panicked before (poisoning); p.stream.take().unwrap() is inside the `Some((stream, buf))` arm of the match on the same Option";
+  mk_review "h3-webtransport/src/server.rs" "Future for OpenUni::poll" K_assert 1 Guarded
+    "the while loop just above ran until !buf.has_remaining(); OpenUni is a send-side future";
+  mk_review "h3-webtransport/src/server.rs" "Future for OpenUni::poll" K_unwrap 2 Guarded
+    "Mutex::lock().unwrap() fails only if another holder panicked before (poisoning); p.stream.take().unwrap() is inside the `Some((stream, buf))` arm of the match on the same Option";
+  mk_review "h3-webtransport/src/server.rs" "Future for AcceptUni::poll" K_unwrap 1 Guarded
+    "Mutex::lock().unwrap() fails only when the mutex is poisoned, i.e. after another h3 call already panicked while holding it; no peer input poisons it by itself"
 ].
+(* the fingerprint each owning function had when its rows were reviewed *)
+Definition print_table : list fn_print := [
+  mk_print "h3/src/frame.rs" "FrameStream::poll_next" 773942712910499929;
+  mk_print "h3/src/frame.rs" "FrameStream::poll_data" 450068831201023236;
+  mk_print "h3/src/frame.rs" "FrameDecoder::decode" 672027543324904117;
+  mk_print "h3/src/buf.rs" "BufList::push" 242143266256771136;
+  mk_print "h3/src/buf.rs" "BufList::take_chunk" 934105119137658593;
+  mk_print "h3/src/buf.rs" "BufList::push_bytes" 157875036097330398;
+  mk_print "h3/src/buf.rs" "Buf for BufList::advance" 638458634516667010;
+  mk_print "h3/src/buf.rs" "Buf for BufList::chunks_vectored" 848614575771136269;
+  mk_print "h3/src/buf.rs" "Buf for Cursor::remaining" 163695877692090574;
+  mk_print "h3/src/buf.rs" "Buf for Cursor::chunk" 676316392519317006;
+  mk_print "h3/src/buf.rs" "Buf for Cursor::advance" 479689138231383342;
+  mk_print "h3/src/stream.rs" "WriteBuf::encode_stream_type" 795521190218598940;
+  mk_print "h3/src/stream.rs" "WriteBuf::encode_value" 356748551558653800;
+  mk_print "h3/src/stream.rs" "WriteBuf::encode_frame_header" 929521502262075454;
+  mk_print "h3/src/stream.rs" "Buf for WriteBuf::remaining" 91094741877907860;
+  mk_print "h3/src/stream.rs" "Buf for WriteBuf::chunk" 1125404724953153464;
+  mk_print "h3/src/stream.rs" "Buf for WriteBuf::advance" 164696321208360097;
+  mk_print "h3/src/stream.rs" "AcceptRecvStream::into_stream" 258665904043366105;
+  mk_print "h3/src/stream.rs" "AcceptRecvStream::poll_next_varint" 1085122436385001287;
+  mk_print "h3/src/stream.rs" "RecvStream for BufRecvStream::poll_data" 854547133147545051;
+  mk_print "h3/src/stream.rs" "AsyncRead for BufRecvStream::poll_read" 101313352011356071;
+  mk_print "h3/src/stream.rs" "AsyncRead for BufRecvStream::poll_read#2" 254956492202555858;
+  mk_print "h3/src/connection.rs" "ConnectionInner::new" 12721471135637780;
+  mk_print "h3/src/connection.rs" "ConnectionInner::poll_accept_recv" 713826345832115115;
+  mk_print "h3/src/proto/frame.rs" "Frame::decode" 367832883571405207;
+  mk_print "h3/src/proto/frame.rs" "Encode for Frame::encode" 870179636553563531;
+  mk_print "h3/src/proto/frame.rs" "FrameType::grease" 301319997934305385;
+  mk_print "h3/src/proto/frame.rs" "trait FrameHeader::encode_header" 618757857832004207;
+  mk_print "h3/src/proto/frame.rs" "FrameHeader for PushPromise::encode_header" 635976018898191353;
+  mk_print "h3/src/proto/frame.rs" "FrameHeader for PushPromise::len" 252993968248478575;
+  mk_print "h3/src/proto/frame.rs" "PushPromise::decode" 714169771396949280;
+  mk_print "h3/src/proto/frame.rs" "PushPromise::encode" 509208693144242715;
+  mk_print "h3/src/proto/frame.rs" "simple_frame_encode" 631200995060528153;
+  mk_print "h3/src/proto/frame.rs" "SettingId::grease" 836932576843504522;
+  mk_print "h3/src/proto/frame.rs" "FrameHeader for Settings::len" 985087382786155330;
+  mk_print "h3/src/proto/frame.rs" "Settings::insert" 528066828679289942;
+  mk_print "h3/src/proto/frame.rs" "Settings::encode" 1145645857995315072;
+  mk_print "h3/src/proto/frame.rs" "Settings::decode" 384620666545267632;
+  mk_print "h3/src/proto/varint.rs" "Div for VarInt::div" 256651914913590250;
+  mk_print "h3/src/proto/varint.rs" "VarInt::from_u32" 941072526534185645;
+  mk_print "h3/src/proto/varint.rs" "VarInt::from_u64" 293689546447897185;
+  mk_print "h3/src/proto/varint.rs" "VarInt::size" 312976612711140409;
+  mk_print "h3/src/proto/varint.rs" "VarInt::encoded_size" 918329555572025248;
+  mk_print "h3/src/proto/varint.rs" "VarInt::decode" 926658823126021335;
+  mk_print "h3/src/proto/varint.rs" "VarInt::encode" 213449925008563489;
+  mk_print "h3/src/proto/varint.rs" "TryFrom for VarInt::try_from#2" 229936924402357041;
+  mk_print "h3/src/proto/varint.rs" "BufMutExt for T::write_var" 912368294879219765;
+  mk_print "h3/src/proto/headers.rs" "Header::len" 897836074035909664;
+  mk_print "h3/src/proto/headers.rs" "Header::size" 897836074035909664;
+  mk_print "h3/src/proto/headers.rs" "TryFrom for Header::try_from" 457636697265220485;
+  mk_print "h3/src/proto/headers.rs" "Field::parse" 320040293628555634;
+  mk_print "h3/src/proto/headers.rs" "Pseudo::request" 782785178403069000;
+  mk_print "h3/src/qpack/decoder.rs" "Decoder::decode_header" 628830084392218672;
+  mk_print "h3/src/qpack/decoder.rs" "Decoder::on_encoder_recv" 895248460119009793;
+  mk_print "h3/src/qpack/decoder.rs" "Decoder::parse_instruction" 575943375186396049;
+  mk_print "h3/src/qpack/decoder.rs" "Decoder::parse_header_field" 1011462602769334633;
+  mk_print "h3/src/qpack/decoder.rs" "decode_stateless" 544680205903707186;
+  mk_print "h3/src/qpack/block.rs" "HeaderPrefix::new" 700412233743204094;
+  mk_print "h3/src/qpack/block.rs" "HeaderPrefix::base_without_refs" 1068279302702602763;
+  mk_print "h3/src/qpack/block.rs" "HeaderPrefix::get" 986661657310795746;
+  mk_print "h3/src/qpack/block.rs" "HeaderPrefix::decode" 21144466040010937;
+  mk_print "h3/src/qpack/block.rs" "HeaderPrefix::encode" 904984220486143245;
+  mk_print "h3/src/qpack/block.rs" "Indexed::decode" 1074453268469304238;
+  mk_print "h3/src/qpack/block.rs" "Indexed::encode" 371211073614992000;
+  mk_print "h3/src/qpack/block.rs" "IndexedWithPostBase::decode" 958790998564218513;
+  mk_print "h3/src/qpack/block.rs" "IndexedWithPostBase::encode" 792538056711760264;
+  mk_print "h3/src/qpack/block.rs" "LiteralWithNameRef::decode" 957988546141259113;
+  mk_print "h3/src/qpack/block.rs" "LiteralWithNameRef::encode" 475812391532452569;
+  mk_print "h3/src/qpack/block.rs" "LiteralWithPostBaseNameRef::decode" 926428210056120332;
+  mk_print "h3/src/qpack/block.rs" "LiteralWithPostBaseNameRef::encode" 703207341857269299;
+  mk_print "h3/src/qpack/block.rs" "Literal::decode" 1002216006489317059;
+  mk_print "h3/src/qpack/prefix_string/mod.rs" "decode" 131588597399552501;
+  mk_print "h3/src/qpack/prefix_string/mod.rs" "encode" 184149237997394068;
+  mk_print "h3/src/qpack/prefix_string/decode.rs" "HuffmanDecoder::check_eof" 15064980860918784;
+  mk_print "h3/src/qpack/prefix_string/decode.rs" "HuffmanDecoder::fetch_value" 281182403792575853;
+  mk_print "h3/src/qpack/prefix_string/decode.rs" "HuffmanDecoder::decode_next" 735121105642080766;
+  mk_print "h3/src/qpack/prefix_string/decode.rs" "read_bits" 876441152047018122;
+  mk_print "h3/src/qpack/prefix_string/decode.rs" "DecodeIter::check_padding" 176311161961407516;
+  mk_print "h3/src/qpack/prefix_string/decode.rs" "Iterator for DecodeIter::next" 11204835972663812;
+  mk_print "h3/src/qpack/prefix_string/bitwin.rs" "BitWindow::forwards" 432337054672047978;
+  mk_print "h3/src/qpack/prefix_string/bitwin.rs" "BitWindow::opposite_bit_window" 560190362719643189;
+  mk_print "h3/src/qpack/prefix_int.rs" "decode" 659354619757671532;
+  mk_print "h3/src/qpack/prefix_int.rs" "encode" 1082176733542918343;
+  mk_print "h3/src/qpack/static_.rs" "StaticTable::find" 678541548410680664;
+  mk_print "h3/src/server/connection.rs" "Connection::shutdown" 292969043711398150;
+  mk_print "h3/src/server/connection.rs" "Connection::poll_accept_request_stream_internal" 610404150778549482;
+  mk_print "h3/src/server/connection.rs" "Connection::poll_requests_completion" 718867821029490266;
+  mk_print "h3/src/server/request.rs" "ResolvedRequest::resolve" 959414860809335716;
+  mk_print "h3/src/proto/stream.rs" "StreamType::grease" 28828865531186429;
+  mk_print "h3/src/proto/stream.rs" "StreamId::new" 590293261440644767;
+  mk_print "h3/src/proto/stream.rs" "StreamId::index" 502293241333893232;
+  mk_print "h3/src/proto/stream.rs" "Encode for StreamId::encode" 873769224673166670;
+  mk_print "h3/src/proto/stream.rs" "Add for StreamId::add" 345524331354929405;
+  mk_print "h3/src/proto/coding.rs" "Decode for u8::decode" 626058792564135691;
+  mk_print "h3/src/proto/coding.rs" "BufMutExt for T::write_var" 912368294879219765;
+  mk_print "h3/src/qpack/field.rs" "HeaderField::mem_size" 533776943161820621;
+  mk_print "h3/src/webtransport/session_id.rs" "Encode for SessionId::encode" 873769224673166670;
+  mk_print "h3/src/error/codes.rs" "macro_rules codes" 682329413848013144;
+  mk_print "h3/src/error/codes.rs" "Debug for Code::fmt" 280962994888135949;
+  mk_print "h3/src/error/codes.rs" "Display for Code::fmt" 280962994888135949;
+  mk_print "h3/src/config.rs" "TryFrom for Settings::try_from" 1017941183739610855;
+  mk_print "h3-webtransport/src/server.rs" "WebTransportSession::accept" 550420007095464154;
+  mk_print "h3-webtransport/src/server.rs" "WebTransportSession::datagram_reader" 924007633160314050;
+  mk_print "h3-webtransport/src/server.rs" "WebTransportSession::datagram_sender" 314400305298621567;
+  mk_print "h3-webtransport/src/server.rs" "WebTransportSession::accept_bi" 740955396557562170;
+  mk_print "h3-webtransport/src/server.rs" "Future for OpenBi::poll" 144988328635635407;
+  mk_print "h3-webtransport/src/server.rs" "Future for OpenUni::poll" 278308910431972849;
+  mk_print "h3-webtransport/src/server.rs" "Future for AcceptUni::poll" 342224305447064034
+].
+
+Definition print_reviewed (q : fn_print) : bool :=
+  existsb (fun r => String.eqb (p_file r) (p_file q) && String.eqb (p_fn r) (p_fn q) && N.eqb (p_hash r) (p_hash q)) print_table.
 
 Definition pkind_eqb (a b : pkind) : bool :=
   match a, b with
